@@ -541,6 +541,14 @@ func fixed() {
 		sc.rounds = append(sc.rounds, roundSpec{refs: []beh{t(100 * us)}, peers: []beh{t(p)}})
 	}
 	emit(sc)
+	// the bound at full strength beyond 2^62 ns: a drift allowance of 3e18 ns per round (95 years), default factors;
+	// the two bounded values are more than 2^63 ns apart and Midpoint wraps (kind sync.extreme, a recorded finding)
+	sc = def()
+	sc.fam = "extreme-known"
+	sc.mode, sc.dval = 1, 3000000000000000000
+	sc.nref, sc.npeer = 1, 3
+	sc.rounds = []roundSpec{{refs: []beh{t(math.MinInt64)}, peers: []beh{t(5473372036854775808), t(5473372036854775808), t(5473372036854775808)}}}
+	emit(sc)
 	// peers only
 	sc = def()
 	sc.nref, sc.npeer = 0, 1
